@@ -351,6 +351,27 @@ func iBin(op string, a, b Int) Int {
 			return a
 		}
 	}
+	// strength reduction: division / remainder by a constant power of two (division circuits
+	// stall bit-blasting; shifts do not).  Go semantics: truncation toward zero for signed.
+	if (op == "/" || op == "%") && b.IsC && b.C != 0 && b.C&(b.C-1) == 0 && !(sg && b.sval() < 0) {
+		k := uint64(0)
+		for (uint64(1) << k) != b.C {
+			k++
+		}
+		var q Int
+		if !sg {
+			q = iShift(false, a, mkInt(w, false, k))
+		} else {
+			// (a + ((a >>s (w-1)) & (2^k-1))) >>s k
+			sign := iShift(false, a, mkInt(w, false, uint64(w-1)))
+			bias := iBin("&", sign, mkInt(w, sg, b.C-1))
+			q = iShift(false, iBin("+", a, bias), mkInt(w, false, k))
+		}
+		if op == "/" {
+			return q
+		}
+		return iBin("-", a, iShift(true, q, mkInt(w, false, k)))
+	}
 	var f string
 	switch op {
 	case "+":
